@@ -123,6 +123,7 @@ class Gen(object):
         self.const_style = 'plain'
         self.arrays = False           # array element assignments / reads (prebuild checks only)
         self.logical_calls = False    # invocations as operands of and / or (differential checks only)
+        self.self_relates = False     # self as a participant of relate statements (prebuild checks only: nothing is executed)
         self.refattrs = False         # reads of referential attributes (prebuild checks only: identifier values are not modelled)
         self.t = tape
         self.max_stmts = max_stmts
@@ -501,11 +502,22 @@ class Gen(object):
                 b, p2 = t.choice(existing), []   # many Bs / Ls may share one A / D
             else:
                 b, p2 = self.create(env, tc)
+            if self.self_relates and self.self_cls in (fc, tc) and t.flag():
+                # the running instance takes the place of one participant (at any block depth)
+                if self.self_cls == fc:
+                    env.drop(a)
+                    a, p1 = 'self', []
+                else:
+                    if p2:
+                        env.drop(b)
+                    b, p2 = 'self', []
+                self.features.add('relate-self')
             pre = p1 + p2
             self.features.add('relate')
             if fc == 'L' and t.pick(4) != 0:
                 # associative link in one statement
-                env.drop(a)
+                if a != 'self':
+                    env.drop(a)
                 if p2:
                     env.drop(p2[0]['variable_name'])
                 x, p3 = self.create(env, 'A')
